@@ -73,6 +73,7 @@ func (s *keySys) Reset() {
 			if s.sMaxAge {
 				r.Header.Set("Cache-Control", fmt.Sprintf("public, s-maxage=%d, max-age=1000", s.answer.T))
 			}
+			r.Header.Set("ETag", `W/"coarse"`) // a coarse validator: the same for every generation of the body
 			if s.originAge != "" {
 				r.Header.Set("Age", s.originAge)
 			}
@@ -123,17 +124,19 @@ func (s *keySys) Apply(ev int) (string, string, string) {
 	if s.memLost {
 		// "either served again unchanged or refetched": a persisted entry may legitimately be gone
 		probe := s.spec
-		if l, _, _, _ := probe.Request(now, ans); l == "hit" && r.XStatus == "fetching" {
+		if l, _, _, _ := probe.Request(now, ans); (l == "hit" || l == "hitForPass") && r.XStatus == "fetching" {
 			s.spec.Purge()
 		}
 		s.memLost = false
 	}
 	label, contact, serial, age := s.spec.Request(now, ans)
 	if serial == "new" && contacts > 0 {
+		// the body this request must carry is the one its own origin call produced
+		own := fmt.Sprint(an.Reqs["r"].Calls[0].Serial)
 		if s.spec.Kind == oracle.Hit && s.spec.Serial == "new" {
-			s.spec.Serial = ser
+			s.spec.Serial = own
 		}
-		serial = ser
+		serial = own
 	}
 	obs := fmt.Sprintf("%d/%s/c%d/age%s", r.Status, r.XStatus, contacts, r.Age)
 	s.lastObs = obs
